@@ -446,9 +446,18 @@ func judgeC03(root string, c c03Case) (string, string) {
 			}
 		}()
 		opt := fsutil.ReceiveOpt{}
-		if strings.HasPrefix(c.Opt, "meta") {
+		switch c.Opt {
+		case "meta", "meta-merge":
 			opt.MetadataOnly = func(string, *types.Stat) bool { return true }
 			opt.Merge = c.Opt == "meta-merge"
+		case "meta-merge-hide-a":
+			// a selector that leaves out the path a (and with it, possibly, the link source of something it selects)
+			opt.MetadataOnly = func(p string, _ *types.Stat) bool { return p != "a" }
+			opt.Merge = true
+		case "merge-filter-a":
+			// (a filter that hides a directory hides what is below it as well)
+			opt.Filter = func(p string, _ *types.Stat) bool { return p != "a" && !strings.HasPrefix(p, "a/") }
+			opt.Merge = true
 		}
 		done <- fsutil.Receive(ctx, h, dest, opt)
 	}()
@@ -703,6 +712,33 @@ func childC03(args []string) int {
 	for _, sc := range c03Scripts(tier, ml) {
 		for _, pr := range []string{"listing-link-out", "listing-link-dir", "empty"} {
 			for _, op := range []string{"meta", "meta-merge"} {
+				i++
+				if i%n != shard || i < start || redundantAfterFin(sc) {
+					continue
+				}
+				c := c03Case{Script: sc, Prior: pr, Coop: true, Opt: op}
+				if b, err := json.Marshal(map[string]any{"i": i, "case": c, "evals": out.Evals, "cancelled": cancelled.Load()}); err == nil {
+					cur.Truncate(0)
+					cur.WriteAt(b, 0)
+				}
+				k, m := judgeC03("/", c)
+				out.Evals++
+				if k != "" {
+					out.Count[k]++
+					if out.Count[k] <= 3 {
+						json.NewEncoder(os.Stdout).Encode(c03Out{Viol: []c03Viol{{k, m, c}}})
+					} else {
+						json.NewEncoder(os.Stdout).Encode(c03Out{Count: map[string]int{k: 1}})
+					}
+				}
+			}
+		}
+	}
+	// merge receives in which the caller's own selector / filter leaves the path a alone, into destinations where a
+	// is a link to outside: every script of length <=2
+	for _, sc := range c03Scripts(tier, 2) {
+		for _, pr := range []string{"a-symlink-out", "a-chain-out"} {
+			for _, op := range []string{"meta-merge-hide-a", "merge-filter-a"} {
 				i++
 				if i%n != shard || i < start || redundantAfterFin(sc) {
 					continue
